@@ -433,7 +433,7 @@ func main() {
 	}}
 	info = &types.Info{Uses: map[*ast.Ident]types.Object{}, Defs: map[*ast.Ident]types.Object{},
 		Selections: map[*ast.SelectorExpr]*types.Selection{}, Types: map[ast.Expr]types.TypeAndValue{}}
-	conf.Check("github.com/tigerwill90/fox", fset, files, info)
+	pkgTypes, _ := conf.Check("github.com/tigerwill90/fox", fset, files, info)
 	if nerr > 0 {
 		os.Exit(2)
 	}
@@ -549,6 +549,127 @@ func main() {
 		}
 	}
 
+	// ---- shared state of Router: (1) every field whose type comes from sync / sync/atomic, (2) every function that
+	// assigns a Router field after construction (New and the With*/DefaultOptions configuration functions run
+	// before the router is shared and are excluded). A NEW atomic / mutex field, or a field written on a write
+	// path, changes these lists and re-opens the obligation.
+	var syncFields [][2]string
+	qualifier := func(p *types.Package) string { return p.Name() }
+	var mentionsSync func(t types.Type, depth int) bool
+	mentionsSync = func(t types.Type, depth int) bool {
+		if depth > 6 {
+			return false
+		}
+		switch x := t.(type) {
+		case *types.Named:
+			if o := x.Obj(); o != nil && o.Pkg() != nil && (o.Pkg().Path() == "sync" || o.Pkg().Path() == "sync/atomic") {
+				return true
+			}
+			return mentionsSync(x.Underlying(), depth+1)
+		case *types.Pointer:
+			return mentionsSync(x.Elem(), depth+1)
+		case *types.Slice:
+			return mentionsSync(x.Elem(), depth+1)
+		case *types.Array:
+			return mentionsSync(x.Elem(), depth+1)
+		case *types.Map:
+			return mentionsSync(x.Elem(), depth+1) || mentionsSync(x.Key(), depth+1)
+		case *types.Chan:
+			return true
+		case *types.Struct:
+			for i := 0; i < x.NumFields(); i++ {
+				if mentionsSync(x.Field(i).Type(), depth+1) {
+					return true
+				}
+			}
+		}
+		return false
+	}
+	if obj := pkgTypes.Scope().Lookup("Router"); obj != nil {
+		if st, ok := obj.Type().Underlying().(*types.Struct); ok {
+			for i := 0; i < st.NumFields(); i++ {
+				f := st.Field(i)
+				if mentionsSync(f.Type(), 0) {
+					syncFields = append(syncFields, [2]string{f.Name(), types.TypeString(f.Type(), qualifier)})
+				}
+			}
+		} else {
+			fmt.Fprintln(os.Stderr, "syncgen: REFUSED: Router is not a struct")
+			os.Exit(3)
+		}
+	} else {
+		fmt.Fprintln(os.Stderr, "syncgen: REFUSED: type Router not found")
+		os.Exit(3)
+	}
+	routerField := func(e ast.Expr) (string, bool) {
+		for {
+			switch x := e.(type) {
+			case *ast.ParenExpr:
+				e = x.X
+				continue
+			case *ast.StarExpr:
+				e = x.X
+				continue
+			case *ast.IndexExpr:
+				e = x.X
+				continue
+			case *ast.SliceExpr:
+				e = x.X
+				continue
+			}
+			break
+		}
+		for { // a.b.c = ... writes field b of a when a.b is a Router field holding a struct value
+			se, ok := e.(*ast.SelectorExpr)
+			if !ok {
+				return "", false
+			}
+			if sel := info.Selections[se]; sel != nil && sel.Kind() == types.FieldVal {
+				t := sel.Recv()
+				if p, ok := t.(*types.Pointer); ok {
+					t = p.Elem()
+				}
+				if n, ok := t.(*types.Named); ok && n.Obj().Name() == "Router" && n.Obj().Pkg().Path() == "github.com/tigerwill90/fox" {
+					return se.Sel.Name, true
+				}
+			}
+			e = se.X
+		}
+	}
+	var fieldWriters [][2]string
+	seenFW := map[[2]string]bool{}
+	for _, f := range files {
+		for _, d := range f.Decls {
+			fd, ok := d.(*ast.FuncDecl)
+			if !ok || fd.Body == nil {
+				continue
+			}
+			q := qual(fd)
+			if q == "New" || strings.HasPrefix(q, "With") || q == "DefaultOptions" {
+				continue
+			}
+			ast.Inspect(fd.Body, func(n ast.Node) bool {
+				var lhs []ast.Expr
+				switch x := n.(type) {
+				case *ast.AssignStmt:
+					lhs = x.Lhs
+				case *ast.IncDecStmt:
+					lhs = []ast.Expr{x.X}
+				}
+				for _, l := range lhs {
+					if name, ok := routerField(l); ok {
+						k := [2]string{q, name}
+						if !seenFW[k] {
+							seenFW[k] = true
+							fieldWriters = append(fieldWriters, k)
+						}
+					}
+				}
+				return true
+			})
+		}
+	}
+
 	var sb strings.Builder
 	sb.WriteString("(* GENERATED by harness/cmd/syncgen from the fox sources (" + "VERIF_REPO" + "); do not edit.\n")
 	sb.WriteString("   Source-ordered synchronisation events of the transaction / read entry points. *)\n")
@@ -599,6 +720,24 @@ func main() {
 			first = false
 			sb.WriteString(coqStr(q))
 		}
+	}
+	sb.WriteString("].\n\n")
+	sb.WriteString("(* every field of Router whose type involves sync / sync/atomic (name, type): the state shared between\n   goroutines after construction *)\n")
+	sb.WriteString("Definition router_sync_fields : list (string * string) := [")
+	for i, f := range syncFields {
+		if i > 0 {
+			sb.WriteString("; ")
+		}
+		sb.WriteString("(" + coqStr(f[0]) + ", " + coqStr(f[1]) + ")")
+	}
+	sb.WriteString("].\n\n")
+	sb.WriteString("(* every (function, field) that assigns a Router field outside construction (New, With*, DefaultOptions) *)\n")
+	sb.WriteString("Definition router_field_writers : list (string * string) := [")
+	for i, f := range fieldWriters {
+		if i > 0 {
+			sb.WriteString("; ")
+		}
+		sb.WriteString("(" + coqStr(f[0]) + ", " + coqStr(f[1]) + ")")
 	}
 	sb.WriteString("].\n")
 
